@@ -249,16 +249,21 @@ void run(size_t idx) {
 	for (auto& u : g.uvs) u = Vector2(rng.range(-2, 2), rng.range(-2, 2));
 	nif.SetUvsForShape(s, g.uvs);
 	checkLengths(cs, nif, s, "SetUvsForShape");
-	g.normals = unit();
-	g.hasNormals = true;
-	nif.SetNormalsForShape(s, g.normals);
-	checkLengths(cs, nif, s, "SetNormalsForShape");
-	g.tangents = unit();
-	g.bitangents = unit();
-	g.hasTangents = true;
-	nif.SetTangentsForShape(s, g.tangents);
-	nif.SetBitangentsForShape(s, g.bitangents);
-	checkLengths(cs, nif, s, "SetTangents/BitangentsForShape");
+	// a shape created without normals stays without them in half of the cases (per-vertex attributes are stored independently of each other)
+	bool stayWithoutNormals = !withNormals && (idx / 21) % 2 == 0;
+	if (!stayWithoutNormals) {
+		g.normals = unit();
+		g.hasNormals = true;
+		nif.SetNormalsForShape(s, g.normals);
+		checkLengths(cs, nif, s, "SetNormalsForShape");
+		g.tangents = unit();
+		g.bitangents = unit();
+		g.hasTangents = true;
+		nif.SetTangentsForShape(s, g.tangents);
+		nif.SetBitangentsForShape(s, g.bitangents);
+		checkLengths(cs, nif, s, "SetTangents/BitangentsForShape");
+	}
+	else { cs.what += " [no normals]"; R_stat("models_that_stay_without_normals"); }
 	g.colors.resize(nvEff);
 	for (auto& col : g.colors) col = Color4(rng.unit(), rng.unit(), rng.unit(), rng.coin(5) ? 1.0f : rng.unit());
 	g.hasColors = true;
